@@ -416,7 +416,13 @@ def main():
     import pipe_common
 
     nD = 48 if not ck.thorough else 700
-    outsD = pipe_common.run_corpus(ck, nD, want={"words": True, "extra": c04_gen.pipeline_extra}) if only in (None, "D") else []
+    wantD = {"words": True, "extra": c04_gen.pipeline_extra}
+    outsD = pipe_common.run_corpus(ck, nD, want=wantD) if only in (None, "D") else []
+    if only is None:
+        # generated networks kept because they exposed something: (profile, seed, index)
+        #   mixed/0/308  int16 MINIMUM -> RESIZE_BILINEAR: tile-aliased explicit padding (known finding)
+        for prof, sd, ix in [("mixed", 0, 308)]:
+            outsD.append(pipe_common._worker((sd, ix, prof, wantD)))
     reqsD, ownersD = [], []
     for o in outsD:
         ck.count("D_status_" + str(o.get("status", "harness-exception")))
